@@ -7,8 +7,14 @@ import (
 	"crypto/tls"
 	"crypto/x509"
 	"crypto/x509/pkix"
+	"crypto/sha1"
+	"encoding/hex"
+	"encoding/json"
 	"fmt"
+	"io"
 	"math/big"
+	"net"
+	"net/http"
 	"os"
 	"path/filepath"
 	"strings"
@@ -38,7 +44,8 @@ const (
 //	T (TLS)        t1 :port        t2 :port/base  tls self_signed, clients request
 //
 // every site: request_id, log / <file> "<all placeholders>", rewrite ^/rw/(.*)$ -> /nw/{1}?rq=1,
-// header / X-Vocab "<all placeholders>", basicauth /auth, limits body /lim, verifprobe.
+// header / X-Vocab "<all placeholders>", basicauth /auth, limits body /lim,
+// proxy /px <backend> { header_upstream X-Up-Body "[{request_body}]" }, verifprobe.
 type fixture struct {
 	dir        string
 	casketfile string
@@ -53,6 +60,23 @@ type fixture struct {
 	conns      map[string]*client // one keep-alive connection per kind (P, T12, T12c, T13, T13c)
 	files      map[string]*os.File
 	hostname   string
+	backend    *http.Server // what `proxy /px` forwards to: reports the body it received
+	backendLn  net.Listener
+}
+
+// backendHandler reads the forwarded request's body and reports it the way verifprobe's "read;report" does; the value of
+// the header_upstream rule comes back as a response header.
+func backendHandler(w http.ResponseWriter, r *http.Request) {
+	h := sha1.New()
+	n, err := io.Copy(h, r.Body)
+	e := ""
+	if err != nil {
+		e = err.Error()
+	}
+	b, _ := json.Marshal(map[string]interface{}{"read": n, "err": e, "sum": hex.EncodeToString(h.Sum(nil)), "is_max_bytes": false})
+	w.Header().Set("X-Saw-Up-Body", r.Header.Get("X-Up-Body"))
+	w.Header().Set("Content-Type", "application/json")
+	w.Write(b)
 }
 
 const (
@@ -95,6 +119,8 @@ func format(names []string) string {
 
 func startFixture(t testing.TB, names []string) (*fixture, error) {
 	hx.Quiet()
+	// a local time zone that is not UTC, so that {when} / {when_iso_local} (local) and {when_iso} (UTC) differ
+	time.Local = time.FixedZone("VRF", 5*3600+1800)
 	casket.AppName = appName
 	os.Setenv(envName, envValue)
 	dir, err := os.MkdirTemp(hx.Scratch(t), "cx20vocab")
@@ -113,6 +139,9 @@ func startFixture(t testing.TB, names []string) (*fixture, error) {
 	}
 	root := filepath.Join(dir, "root")
 	os.MkdirAll(root, 0o755)
+	fx.backendLn = hx.ListenFresh()
+	fx.backend = &http.Server{Handler: http.HandlerFunc(backendHandler)}
+	go fx.backend.Serve(fx.backendLn)
 	var lastErr error
 	for try := 0; try < 4; try++ {
 		fx.plainPort, fx.tlsPort = hx.StablePort(), hx.StablePort()
@@ -145,6 +174,7 @@ func (fx *fixture) render(root string) string {
 		b.WriteString("\trewrite {\n\t\tr ^/rw/(.*)$\n\t\tto /nw/{1}?rq=1\n\t}\n")
 		fmt.Fprintf(&b, "\theader / X-Vocab \"%s\"\n", f)
 		fmt.Fprintf(&b, "\tbasicauth /auth %s %s\n", authUser, authPass)
+		fmt.Fprintf(&b, "\tproxy /px 127.0.0.1:%d {\n\t\theader_upstream X-Up-Body \"[{request_body}]\"\n\t}\n", fx.backendLn.Addr().(*net.TCPAddr).Port)
 		b.WriteString("\tverifprobe\n}\n")
 	}
 	tlsLine := "tls self_signed {\n\t\tclients request\n\t\tno_redirect\n\t}" // (no redirect site on certmagic's HTTP port: several instances live in this process)
@@ -161,6 +191,9 @@ func (fx *fixture) stop() {
 	}
 	if fx.site != nil {
 		fx.site.Stop()
+	}
+	if fx.backend != nil {
+		fx.backend.Close()
 	}
 	for _, f := range fx.files {
 		f.Close()
